@@ -7,6 +7,7 @@ import (
 	"encoding/base64"
 	"encoding/json"
 	"fmt"
+	xoauth2 "golang.org/x/oauth2"
 	"hash/fnv"
 	"image/png"
 	"io"
@@ -236,6 +237,18 @@ func newC20Server(seed int64, useSMTP bool, jitterOn bool, jsonMode bool) (*c20s
 	s.ab = ab
 	ab.Config.Paths.Mount = "/auth"
 	ab.Config.Paths.RootURL = "http://site.test"
+	if c20RootURLEmpty {
+		ab.Config.Paths.RootURL = "" // a deployment reachable under several host names
+	}
+	ab.Config.Modules.OAuth2Providers = map[string]authboss.OAuth2Provider{
+		"alpha": {
+			OAuth2Config: &xoauth2.Config{ClientID: "cid-alpha", ClientSecret: "s", Scopes: []string{"profile"},
+				Endpoint: xoauth2.Endpoint{AuthURL: "https://alpha.idp.test/authorize", TokenURL: "https://alpha.idp.test/token"}},
+			FindUserDetails: func(context.Context, xoauth2.Config, *xoauth2.Token) (map[string]string, error) {
+				return map[string]string{"uid": "u", "email": "u@alpha.test"}, nil
+			},
+		},
+	}
 	ab.Config.Paths.AuthLoginOK = world.PathLoginOK
 	ab.Config.Paths.ConfirmOK = world.PathConfirmOK
 	ab.Config.Paths.ConfirmNotOK = world.PathConfirmNotOK
@@ -278,7 +291,7 @@ func newC20Server(seed int64, useSMTP bool, jitterOn bool, jsonMode bool) (*c20s
 		s.mails.sends = map[uint64]int{}
 		ab.Config.Core.Mailer = trackedMailer{inner: defaults.NewLogMailer(s.mails), log: s.mails}
 	}
-	if err := ab.Init("auth", "confirm", "lock", "logout", "otp", "recover", "register", "remember"); err != nil {
+	if err := ab.Init("auth", "confirm", "lock", "logout", "oauth2", "otp", "recover", "register", "remember"); err != nil {
 		return nil, err
 	}
 	if err := (&totp2fa.TOTP{Authboss: ab}).Setup(); err != nil {
@@ -622,6 +635,70 @@ func gateBurst(seed int64, jsonMode bool, G, M int) (string, int, error) {
 	return "", G * M, nil
 }
 
+// c20RootURLEmpty makes the next newC20Server configure Paths.RootURL = "" (set before the call).
+var c20RootURLEmpty bool
+
+// oauthStartBurst: G visitors, each arriving under a host name of its own, start an OAuth2 login M
+// times at once. Where the provider is told to send each of them back to (redirect_uri) is what the
+// same visitor is told when nobody else is around.
+func oauthStartBurst(seed int64, G, M int) (string, int, error) {
+	c20RootURLEmpty = true
+	srv, err := newC20Server(seed, false, true, false)
+	c20RootURLEmpty = false
+	if err != nil {
+		return "", 0, err
+	}
+	defer srv.close()
+	start := func(hc *http.Client, host string) (string, error) {
+		req, _ := http.NewRequest("GET", srv.srv.URL+"/auth/oauth2/alpha", nil)
+		req.Host = host
+		resp, err := hc.Do(req)
+		if err != nil {
+			return "", err
+		}
+		io.Copy(io.Discard, resp.Body)
+		resp.Body.Close()
+		u, err := url.Parse(resp.Header.Get("Location"))
+		if err != nil {
+			return "", err
+		}
+		return u.Query().Get("redirect_uri"), nil
+	}
+	solo := make([]string, G)
+	hc0 := &http.Client{CheckRedirect: func(*http.Request, []*http.Request) error { return http.ErrUseLastResponse }, Timeout: 30 * time.Second}
+	for g := 0; g < G; g++ {
+		if solo[g], err = start(hc0, fmt.Sprintf("tenant%d.site.test", g)); err != nil {
+			return "", 0, err
+		}
+	}
+	var wg sync.WaitGroup
+	wrong := make(chan string, G)
+	for g := 0; g < G; g++ {
+		wg.Add(1)
+		go func(g int) {
+			defer wg.Done()
+			hc := &http.Client{CheckRedirect: func(*http.Request, []*http.Request) error { return http.ErrUseLastResponse }, Timeout: 30 * time.Second}
+			host := fmt.Sprintf("tenant%d.site.test", g)
+			for i := 0; i < M; i++ {
+				got, err := start(hc, host)
+				if err == nil && got != solo[g] {
+					select {
+					case wrong <- fmt.Sprintf("a visitor of %s was given redirect_uri %q; alone it is given %q", host, got, solo[g]):
+					default:
+					}
+					return
+				}
+			}
+		}(g)
+	}
+	wg.Wait()
+	close(wrong)
+	for msg := range wrong {
+		return msg, G * M, nil
+	}
+	return "", G * M, nil
+}
+
 // rotationBurst: G browsers, each holding only the remember cookie of its own account, hit the site M
 // times each at once; every request is re-authenticated by the middleware and handed a fresh cookie.
 // Every cookie ever handed out names its own account and carries a nonce nobody else was given.
@@ -829,6 +906,19 @@ func c20Unit(c *RunCtx, unit int) {
 			return
 		}
 	}
+	// OAuth2 starts by visitors of different host names at once (RootURL empty)
+	if msg, n, err := oauthStartBurst(r.Int63(), 8, tierN(c.Tier, 40, 300)); err != nil {
+		c.Stats.Inconclusive = append(c.Stats.Inconclusive, "server: "+err.Error())
+		return
+	} else {
+		c.Stats.Add("concurrent-oauth2-starts", n)
+		c.Stats.Evaluations += n
+		if msg != "" {
+			v := vio("C20", "oauth2-start-under-concurrency", "%s", msg)
+			c.Stats.Violations = append(c.Stats.Violations, sim.VioRec{Violation: *v, Index: unit})
+			return
+		}
+	}
 	// remember cookies minted in parallel: rotation after rotation by 8 cookie-only browsers at once
 	if msg, n, err := rotationBurst(r.Int63(), 8, tierN(c.Tier, 60, 400)); err != nil {
 		c.Stats.Inconclusive = append(c.Stats.Inconclusive, "server: "+err.Error())
@@ -850,6 +940,14 @@ func c20Unit(c *RunCtx, unit int) {
 		return
 	} else {
 		c.Stats.Add("remember-tokens-minted-in-parallel", n)
+	}
+	// the one-time-token generator shared by confirm and recover, likewise
+	if msg, n := tokenBurst(16, 2000); msg != "" {
+		v := vio("C20", "one-time-token-generator-under-concurrency", "%s", msg)
+		c.Stats.Violations = append(c.Stats.Violations, sim.VioRec{Violation: *v, Index: unit})
+		return
+	} else {
+		c.Stats.Add("one-time-tokens-generated-in-parallel", n)
 	}
 	// C11's handler programs, concurrently, under the race detector
 	var wg sync.WaitGroup
